@@ -192,6 +192,19 @@ def purity(ctx, col):
     col.check(isinstance(r, own.Arr) and r.owners == frozenset(["P:self"]), "R-PURE", d.qualname, d.loc(),
               "get_ndata returns the tree's own column (not a copy)", "owner storage",
               "the column accessor returns a copy: assignments through node handles would be lost", stmt="accessor")
+    # ... on every call: the returned expression is the stored column itself, not the result of a call that may hand out a temporary
+    rets = [n for n in own_nodes(d) if isinstance(n, ast.Return) and n.value is not None]
+    MAYCOPY = ("ascontiguousarray", "asfortranarray", "array", "copy", "astype", "require", "asarray", "asanyarray", "squeeze", "ravel", "flatten", "take", "compress")
+    for rt in rets:
+        calls = [c for c in ast.walk(rt.value) if isinstance(c, ast.Call)]
+        wrap = [c for c in calls if (dotted(c.func) or "").rsplit(".", 1)[-1] in MAYCOPY or (isinstance(c.func, ast.Attribute) and c.func.attr in MAYCOPY)]
+        if wrap:
+            col.bad("R-PURE", d.qualname, d.loc(rt), "get_ndata hands out the stored column itself on every call", 
+                    f"`{norm_src(rt)[:80]}` passes the stored column through `{norm_src(wrap[0].func)}`, which returns a NEW array whenever the stored one does not already have the "
+                    f"requested layout / type (a strided column such as xyzr[:, 0], another dtype): a write through a node handle then lands in a temporary and is lost",
+                    stmt="accessor-plain", definite=True)
+        else:
+            col.ok("R-PURE", d.qualname, d.loc(rt), "get_ndata hands out the stored column itself on every call", norm_src(rt)[:60], stmt="accessor-plain")
     # write through a tree node reaches the owner
     tn = repo.get_class("swcgeom.core.tree.Tree.Node")
     I = own.Interp(ctx)
@@ -251,10 +264,12 @@ def _eval_through_helper(repo, d, v, f):
     return f.eval(v)
 
 
-def idxnorm(ctx, col):
+def idxnorm(ctx, col, only=None):
     repo = ctx.repo
     sites = [("swcgeom.core.tree.Tree.__getitem__", "key"), ("swcgeom.core.path.Path.__getitem__", "key"),
              ("swcgeom.core.population._get_idx", "key")]
+    if only is not None:
+        sites = [x for x in sites if x[0] in only]
     for q, kname in sites:
         d = repo.get_def(q)
         arm = [s for s in _int_arm(d) if not (isinstance(s, ast.Expr) and isinstance(s.value, ast.Constant))]
@@ -288,6 +303,8 @@ def idxnorm(ctx, col):
                 continue
             col.check(got == want, "R-IDXNORM", q, d.loc(), f"key={key}, n=5", f"-> {got}",
                       f"-> {got}, expected {want}", stmt=f"row:{key}")
+    if only is not None:
+        return
     # LazyLoadingTrees / ChainTrees route through _get_idx
     for q in ("swcgeom.core.population.LazyLoadingTrees.__getitem__", "swcgeom.core.population.ChainTrees.__getitem__"):
         d = repo.get_def(q)
